@@ -4,6 +4,7 @@ import (
 	"verif/drv"
 
 	_ "verif/props/c01"
+	_ "verif/props/c02"
 	_ "verif/props/c03"
 	_ "verif/props/c07"
 	_ "verif/props/c08"
